@@ -223,8 +223,9 @@ InScope_C05(M, num, den) ==
   /\ (num = den \/ SignOK(M, Opt(M)))
 \* C19: every bound interval contains 0
 InScope_C19(M) == \A r \in RIdx(M) : M.lb[r] <= 0 /\ M.ub[r] >= 0
-\* C17: feasible model with an optimum (start vectors come from the same model)
-InScope_C17(M) == HasOpt(M)
+\* C17: feasible model with an optimum and at least one internal cycle (start vectors come from the
+\* same model)
+InScope_C17(M) == HasOpt(M) /\ Cycles(M) # {}
 
 \* ---------------------------------------------------------------- fixed point (solver outputs)
 \* observed numbers are integers = round(value * 10^6); |value| < 2000
